@@ -337,6 +337,33 @@ func runC14(r *Result, d *drv.Driver, tier string, seed int64, replay string) {
 			cases = append(cases, tc{op: op, reply: b, kind: "pad-split", split: nd.End})
 		}
 	}
+	// replies that are complete and correctly framed but lack a mandatory item of the Response Header (Time Stamp, Protocol
+	// Version): not well-formed responses, whatever else they carry
+	for i, op := range []kmip.Enum{kmip.OPERATION_ACTIVATE, kmip.OPERATION_DISCOVER_VERSIONS} {
+		resp := kmip.Response{Header: kmip.ResponseHeader{Version: kmip.ProtocolVersion{Major: 1, Minor: 4}, TimeStamp: time.Unix(1, 0), BatchCount: 1},
+			BatchItems: []kmip.ResponseBatchItem{{Operation: op, ResultStatus: kmip.RESULT_STATUS_SUCCESS}}}
+		if i == 0 {
+			resp.BatchItems[0].ResponsePayload = kmip.ActivateResponse{UniqueIdentifier: "x"}
+		} else {
+			resp.BatchItems[0].ResponsePayload = kmip.DiscoverVersionsResponse{ProtocolVersions: []kmip.ProtocolVersion{{Major: 9, Minor: 9}}}
+		}
+		b := encodeResponse(resp)
+		if b == nil {
+			continue
+		}
+		for _, drop := range []uint32{0x420092, 0x420069} {
+			for _, nd := range mut.All(mut.Parse(b)) {
+				if nd.Tag != drop || nd.Parent == nil || nd.Parent.Tag != 0x42007a {
+					continue
+				}
+				m := append(append([]byte(nil), b[:nd.Off]...), b[nd.End:]...)
+				for p := nd.Parent; p != nil; p = p.Parent {
+					binary.BigEndian.PutUint32(m[p.Off+4:], binary.BigEndian.Uint32(m[p.Off+4:])-uint32(nd.End-nd.Off))
+				}
+				cases = append(cases, tc{op: op, reply: m, kind: "header-item-missing", dv: i == 1})
+			}
+		}
+	}
 	// Discover Versions specials: success without payload, payload of another type
 	for _, p := range []interface{}{nil, kmip.ActivateResponse{UniqueIdentifier: "x"}, kmip.DiscoverVersionsResponse{}, kmip.DiscoverVersionsResponse{ProtocolVersions: []kmip.ProtocolVersion{{Major: 1, Minor: 4}}}} {
 		op := kmip.OPERATION_DISCOVER_VERSIONS
@@ -651,6 +678,14 @@ func notASuccessReply(b []byte, op uint32) string {
 	for _, k := range top[0].Kids {
 		switch k.Tag {
 		case 0x42007a:
+			// the mandatory items of a Response Header (KMIP 1.4, 6 / 7.2): Protocol Version, Time Stamp, Batch Count
+			have := map[uint32]bool{}
+			for _, h := range k.Kids {
+				have[h.Tag] = true
+			}
+			if top[0].End == len(b) && (!have[0x420069] || !have[0x420092] || !have[0x42000d]) {
+				return fmt.Sprintf("lacks a mandatory item of the Response Header (Protocol Version present: %v, Time Stamp present: %v, Batch Count present: %v)", have[0x420069], have[0x420092], have[0x42000d])
+			}
 			for _, h := range k.Kids {
 				if h.Tag == 0x42000d {
 					if v, ok := u32(h); ok && v != 1 {
